@@ -36,24 +36,6 @@ theorem as_i64_ok {dbg : Bool} {v : IrValue} {u : I64} (h : IrValue.as_i64 dbg v
   case I32 x => exact ⟨⟨.I32, 32, rfl, rfl, x.bv, jitRepr_I32 x⟩, by rw [RInt.val_cast_i64 (by decide) (by decide)]; simp [RInt.val]⟩
   case I64 x => exact ⟨⟨.I64, 64, rfl, rfl, x.bv, jitRepr_I64 x⟩, by simp [RInt.val]⟩
 
-/-- the generated `PartialEq` succeeds only on equal integer-like tags and compares the JIT's bits. -/
-theorem eq_ok {l r : IrValue} {b : Bool} (h : IrValue.eq false l r = .ok b) :
-    ∃ (ty : CTy) (w : Nat) (_ : ty.bits = w) (_ : ty.isFloat = false) (x y : BitVec w),
-      jitRepr l = some (CVal.ofBv ty x) ∧ jitRepr r = some (CVal.ofBv ty y) ∧ b = (x == y) := by
-  cases l <;> cases r <;> simp [IrValue.eq, REq.eq] at h <;> subst h
-  case Bool.Bool x y =>
-    exact ⟨.I8, 8, rfl, rfl, _, _, by rw [jitRepr_Bool, CVal.ofBool_eq], by rw [jitRepr_Bool, CVal.ofBool_eq],
-      by cases x <;> cases y <;> decide⟩
-  case U8.U8 x y => exact ⟨.I8, 8, rfl, rfl, _, _, jitRepr_U8 x, jitRepr_U8 y, RInt.decide_eq x y⟩
-  case U16.U16 x y => exact ⟨.I16, 16, rfl, rfl, _, _, jitRepr_U16 x, jitRepr_U16 y, RInt.decide_eq x y⟩
-  case U32.U32 x y => exact ⟨.I32, 32, rfl, rfl, _, _, jitRepr_U32 x, jitRepr_U32 y, RInt.decide_eq x y⟩
-  case I8.I8 x y => exact ⟨.I8, 8, rfl, rfl, _, _, jitRepr_I8 x, jitRepr_I8 y, RInt.decide_eq x y⟩
-  case I16.I16 x y => exact ⟨.I16, 16, rfl, rfl, _, _, jitRepr_I16 x, jitRepr_I16 y, RInt.decide_eq x y⟩
-  case I32.I32 x y => exact ⟨.I32, 32, rfl, rfl, _, _, jitRepr_I32 x, jitRepr_I32 y, RInt.decide_eq x y⟩
-  case Asn.Asn x y => exact ⟨.I32, 32, rfl, rfl, _, _, jitRepr_Asn x, jitRepr_Asn y, RInt.decide_eq x y⟩
-  case Pointer.Pointer x y => exact ⟨.I64, 64, rfl, rfl, _, _, jitRepr_Pointer x, jitRepr_Pointer y, RInt.decide_eq x y⟩
-
-
 /-- two integer views of operands whose CLIF types coincide have the same width. -/
 theorem IntView.align {l r : IrValue} (a : IntView l) (b : IntView r) {cl cr : CVal}
     (hl : jitRepr l = some cl) (hr : jitRepr r = some cr) (hty : cl.ty = cr.ty) :
@@ -77,8 +59,9 @@ end
 
 /-! ### (round 6) `PartialEq for IrValue`, every tag pair, float arms admitted iff they are IEEE
 
-`eq_ok` above is the pinned tree's table (integer-like tags only; it stays, because it is what the
-`IntCmp` theorem needs).  `eq_ok_general` is the statement the PROPERTY needs about a completed `==`:
+`eq_ok_general` is the statement the PROPERTY needs about a completed `==` (it replaces the former
+`eq_ok`, which was the pinned tree's table — integer-like tags only, one named case per existing arm —
+and therefore stopped checking when a harmless arm such as `(U64(l), U64(r)) => l == r` was added):
 it compared the bit patterns of two integer-like JIT operands of one type (`icmp eq`), or it compared
 two floats of one type with IEEE equality (`fcmp eq`).  Its proof does not name the arms that exist:
 it closes whatever arm the regenerated definition has with whichever of the admissible justifications
